@@ -46,9 +46,17 @@ func (f *HTMLFormatter) Write(result interface{}) error {
 		Writer: f.Writer,
 	}
 
-	f.Writer.Write([]byte("<pre>"))
-	err := fallbackFormatter.Write(result)
-	f.Writer.Write([]byte("\n</pre>"))
+	// A result that could not be written completely is an error, whichever of
+	// the three parts the writer refused.
+	if _, err := f.Writer.Write([]byte("<pre>")); err != nil {
+		return err
+	}
+
+	if err := fallbackFormatter.Write(result); err != nil {
+		return err
+	}
+
+	_, err := f.Writer.Write([]byte("\n</pre>"))
 
 	return err
 }
